@@ -9,7 +9,7 @@ OPS_FOR = {
     "C05": ["push", "pop", "push_at", "pop_at", "get_set", "mem_rem", "resize", "del", "concat", "assign", "sort"],
     "C11": ["iter", "iter_dup"],
     "C12": ["pop", "push_at", "pop_at", "get_set", "set_bad", "mem_rem", "resize", "stack"],
-    "C19": ["get_set", "push", "push_at", "concat", "assign", "resize", "iter", "stack"],
+    "C19": ["get_set", "push", "push_at", "concat", "stack"],
     "C09": ["hash_cmp"],
     "C10": ["hash_cmp", "assign"],
     "C06": ["del"],
